@@ -1,24 +1,33 @@
-\* C19 model configuration template; @@X@@ are substituted by harness/drivers/c19 (cfgJob there).
-\* Configurations used by the check (p2 = client c2 creates through the command handler in all of them;
+\* C19 model configuration template; @@X@@ are substituted by harness/drivers/c19 (genTable / job there).
+\* Configurations used by the check (p2 = client c2 creates through the command handler unless stated otherwise;
 \* every job is exhaustive for its bounds, VIEW = all variables but hist, and - with Emit - prints one
 \* behaviour per transition of the state graph):
 \*   quick    gen:conc3     ProcsC1 = {p1, p3} ProcsC2 = {p2}  n1  1 call/process  1 lookup process  mapping 1 pre-exists
-\*            gen:conc2f    ProcsC1 = {p1} ProcsC2 = {p2}      n1  2 calls/process 1 lookup process  1 failing write
-\*            gen:seq       Serial, Create/Delete/Update, 2 calls/process, 2 lookups, 1 legacy mapping (here/other node)
-\*            gen:del3      ProcsC1 = {p1, p3, p4} delete only, ProcsC2 = {p2} creates only, n1, 1 call/process, 1 lookup
-\*            gen:delf      Serial, p1 (owner, repository) deletes twice, p2 claims, 2 lookups; DelFaults: any one storage
-\*                          operation of DeleteMapping fails once (then the retry, the re-claim, the lookups)
-\*            gen:spell     Serial, Create/Delete, 2 calls/process, 2 lookups, all six Host / subdomain spellings
-\*            legacy:conc3, legacy:seq   Fix = FALSE, CaseFold = FALSE (the code before the two repairs), no invariants
+\*            gen:seq       Serial, Create/Delete/Update, 2 calls/process, 1-2 lookups, 1 legacy mapping (here/other node)
+\*            gen:del3      ProcsC1 = {p1, p3, p4} delete only, ProcsC2 = {p2} creates only, n1, 1 call/process
+\*            gen:opf       Serial, p1 (c1, command handlers) and p2 (c2, repository), 2 calls each, 1 lookup; CreateFaults +
+\*                          DelFaults: any ONE storage operation of a create (pre-check, id counter, index SetNX as an ERROR,
+\*                          record, list, expiry update) or of a delete fails; then the retry, the re-claim, the lookups
+\*            gen:list      p1 = the owner lists, p3 = the owner deletes, p2 = another client claims, 1 lookup process
+\*            gen:upd       p1 = the owner updates (inactive / expired) or deletes, p3 = the owner deletes, p2 claims
+\*            gen:rdf       Serial, Create/Delete/List/Update, 2 calls each, 1 lookup; ReadFaults: any ONE storage operation
+\*                          of a listing, of a host lookup or of a stand-alone update fails
+\*            gen:shadow    Serial, one repository owner (created, made inactive / expired) + one legacy mapping of the
+\*                          same name + a lookup: the three lookup sources against each other
+\*            gen:shadowf   the same with legacy mappings of every status (LegStatus) and ReadFaults
 \*            legacy:dev:conflict-unlock  the del3 configuration with Deviate = {"conflictUnlock"}
-\*            legacy:dev:lazy-clean       two claimants + lookups with Deviate = {"lazyClean"}   (schedules of code
-\*                          with these deviations; on the present code they diverge and are judged as far as they go)
-\*   thorough + gen:conc3f (1 failing write), gen:conc2:2names (n1, n2), gen:seqleg (2 legacy mappings, 3 lookups),
-\*            gen:seqf (Serial + failing write), legacy:conc2f
+\*   thorough + gen:conc2f, gen:conc3f (1 failing write), gen:conc2:2names (n1, n2), gen:seqleg (2 legacy mappings, 3 lookups),
+\*            gen:seqf (Serial + failing write), gen:spell (all six Host / subdomain spellings), gen:listf (gen:list + ReadFaults)
+\*            legacy:conc3, legacy:seq, legacy:conc2f   Fix = FALSE, CaseFold = FALSE (the code before the two repairs), no invariants
+\*            legacy:dev:lazy-clean / nx-release / fall-through / list-heals / update-heals   schedules of code that has the
+\*                          named deviations (on the present code they diverge and are judged as far as they go)
 \*            mc:guess (Guess = TRUE), mc:conc3x2 (2 calls/process, no lookup process), mc:conc2:2names (+ failing
 \*            write), mc:seq:3ops, mc:spell:3ops
-\* Invariants: OneOwner RouteOK OwnerOnly LockHeld OnlyHolderUnlocks LookupPure ListPure RegisterAtomic Consistent Claimable NoIndexTheft; configurations with legacy mappings
-\* use OneOwnerX / RouteOKX (the two legacy deviations are recorded known findings and must not hide other routes).
+\* Invariants: OneOwner RouteOK OwnerOnly LockHeld OnlyHolderUnlocks LookupPure ListPure UpdateClaimsNothing RegisterAtomic
+\* Consistent Claimable NoIndexTheft NoShadow LegacyInactiveRejects; configurations with legacy mappings use OneOwnerX / RouteOKX
+\* (the two legacy deviations are recorded known findings and must not hide other routes; NoShadow and LegacyInactiveRejects are
+\* never excused). ExpiryStored is checked when the code under test has the C19-3 repair (TTLRollback = TRUE, probed by the driver).
+\* Each named deviation has a Domain_show_<x>.cfg under which TLC reports the violated invariant.
 CONSTANTS
   ProcsC1 = @@P1@@
   ProcsC2 = @@P2@@
@@ -41,6 +50,9 @@ CONSTANTS
   Deviate = @@DEVIATE@@
   DelFaults = @@DELFAULTS@@
   CreateFaults = @@CREFAULTS@@
+  ReadFaults = @@READFAULTS@@
+  TTLRollback = @@TTLROLLBACK@@
+  LegStatus = @@LEGSTATUS@@
   OnlyList = @@ONLYLIST@@
   Emit = @@EMIT@@
 INIT Init
